@@ -4,12 +4,14 @@
    the documented tag grammar) and the reference interpreter [expand] of
    Documentation/Template.md.  The expression language here is the integer
    fragment (exact Z arithmetic, one binary operator per parenthesis level, so
-   that precedence -- property C04 -- plays no role); reals are hundredths.
+   that precedence -- property C04 -- plays no role); a real is the bit pattern of a
+   double, printed by the model of Digit::NumberToString (DigitModel.v).
 
    Implementation layer (TmplRender.v): the tag tree with offsets into the
    printed text and the renderer working on slices, as Template.hpp does. *)
 From Coq Require Import NArith ZArith List Bool.
-From Qv Require Import gen.Tables EscapeModel.
+From Qv Require Import gen.Tables gen.Tables_tmplfmt EscapeModel.
+From Qv Require gen.Tables_digit DigitModel.
 Import ListNotations.
 Local Open Scope N_scope.
 
@@ -19,7 +21,7 @@ Inductive jv : Type :=
 | JUndef | JNull | JTrue | JFalse
 | JNat (n : N)
 | JInt (z : Z)            (* negative integers *)
-| JReal (h : Z)           (* a double that is an exact number of hundredths *)
+| JReal (bits : N)        (* a double: its IEEE-754 bit pattern *)
 | JStr (s : list N)
 | JArr (l : list jv)
 | JObj (l : list (list N * jv)).
@@ -43,15 +45,29 @@ Definition dec (n : N) : list N := dec_go (S (N.to_nat (N.size n))) n [].
 Definition dec_z (z : Z) : list N :=
   match z with Zneg p => ch_minus :: dec (Npos p) | _ => dec (Z.to_N z) end.
 
-(* SemiFixed with precision 2 of h/100 *)
-Definition real_text (h : Z) : list N :=
-  let a := Z.to_N (Z.abs h) in
-  let ip := a / 100 in
-  let fr := a mod 100 in
-  (if (h <? 0)%Z then [ch_minus] else []) ++ dec ip ++
-  (if fr =? 0 then []
-   else if fr mod 10 =? 0 then [ch_dot; 48 + fr / 10]
-   else [ch_dot; 48 + fr / 10; 48 + fr mod 10]).
+(* Digit::NumberToString(double, {precision, format}) (DigitModel.real_to_string, bit-faithful).
+   In a template: {Config::TemplatePrecision, QENTEM_TEMPLATE_DOUBLE_FORMAT}; Value::CopyValueTo's default
+   (the group names of GroupBy): RealFormatInfo{Config::DoublePrecision}.  The model's explicit error outcomes
+   (fuel, array bounds) are not a text. *)
+Definition real_string (precision fmt bits : N) : option (list N) :=
+  match DigitModel.real_to_string DigitModel.finfo_double [] bits precision fmt with
+  | DigitModel.Ok s => Some s
+  | DigitModel.Err _ => None
+  end.
+(* the value a JSON numeral denotes: Digit::StringToNumber decides kind and bits (DigitModel.string_to_number; the
+   conversion is within one ulp, not always the nearest double -- C09 -- so the bits are taken from it) *)
+Definition jv_of_numeral (text : list N) : jv :=
+  match DigitModel.string_to_number text with
+  | DigitModel.Ok p =>
+    let k := DigitModel.p_kind p in let b := DigitModel.p_bits p in
+    if N.eqb k Tables_digit.qn_real then JReal b
+    else if N.eqb k Tables_digit.qn_natural then JNat b
+    else if N.eqb k Tables_digit.qn_integer then JInt (if N.ltb b 9223372036854775808 then Z.of_N b else (Z.of_N b - 18446744073709551616)%Z)
+    else JUndef
+  | DigitModel.Err _ => JUndef
+  end.
+Definition real_text (bits : N) : option (list N) := real_string tf_template_precision tf_template_format bits.
+Definition real_text_default (bits : N) : option (list N) := real_string tf_default_precision tf_default_format bits.
 
 (* Value::CopyValueTo: the text of a scalar; [esc] is applied to strings only *)
 Definition value_text (esc : list N -> list N) (v : jv) : option (list N) :=
@@ -59,7 +75,7 @@ Definition value_text (esc : list N -> list N) (v : jv) : option (list N) :=
   | JStr s => Some (esc s)
   | JNat n => Some (dec n)
   | JInt z => Some (dec_z z)
-  | JReal h => Some (real_text h)
+  | JReal b => real_text b
   | JTrue => Some s_true
   | JFalse => Some s_false
   | JNull => Some s_null
@@ -409,7 +425,7 @@ Fixpoint group_add (name : list N) (item : jv) (groups : list (list N * jv)) : l
 Definition group_name (v : jv) : option (list N) :=
   match char_and_length v with
   | Some s => Some s
-  | None => value_text (fun s => s) v
+  | None => match v with JReal b => real_text_default b | _ => value_text (fun s => s) v end
   end.
 Fixpoint group_go (key : list N) (items : list jv) (acc : list (list N * jv)) : option (list (list N * jv)) :=
   match items with
